@@ -19,6 +19,9 @@ type c14Walk struct {
 	ok     bool
 	upDone bool
 	upFail bool
+	// second context (B)
+	upDoneB bool
+	upFailB bool
 }
 
 func (w *c14Walk) next(cmd string, label string) vCall {
@@ -38,8 +41,20 @@ func (w *c14Walk) next(cmd string, label string) vCall {
 }
 
 // one task run: returns whether Run must report an error
-func (w *c14Walk) run(hasCond, hasBefore, hasAfter bool, allow bool) (mustFail, skipped bool) {
-	if !w.upDone {
+func (w *c14Walk) run(hasCond, hasBefore, hasAfter bool, allow bool, useB bool) (mustFail, skipped bool) {
+	cb, ca := "cb0", "ca0"
+	if useB {
+		cb, ca = "cbB", "caB"
+		if !w.upDoneB {
+			w.upDoneB = true
+			if w.next("upB", "C14.up-runs-first-and-once").Failed {
+				w.upFailB = true
+			}
+		}
+		if w.upFailB {
+			return true, false
+		}
+	} else if !w.upDone {
 		w.upDone = true
 		// every up command runs (once); the context failed to start if ANY of them failed
 		if w.next("up0", "C14.up-runs-first-and-once").Failed {
@@ -49,10 +64,10 @@ func (w *c14Walk) run(hasCond, hasBefore, hasAfter bool, allow bool) (mustFail, 
 			w.upFail = true
 		}
 	}
-	if w.upFail {
+	if !useB && w.upFail {
 		return true, false // no hook or command of a task whose context failed to start
 	}
-	if w.next("cb0", "C14.context-before-once-before-the-task").Failed {
+	if w.next(cb, "C14.context-before-once-before-the-task").Failed {
 		return true, false
 	}
 	failed := false
@@ -80,19 +95,21 @@ func (w *c14Walk) run(hasCond, hasBefore, hasAfter bool, allow bool) (mustFail, 
 			w.next("a0", "C14.task-commands-follow-context-before")
 		}
 	}
-	w.next("ca0", "C14.context-after-once-after-the-task-also-when-it-fails")
+	w.next(ca, "C14.context-after-once-after-the-task-also-when-it-fails")
 	return failed, skipped
 }
 
 // VerifC14Hooks: nt (1..2) sequential runs of tasks sharing one context with up/down/before/after
 // commands; shape bits: 1 condition, 2 before hook, 4 after hook.
-func VerifC14Hooks(nt, shape int) {
+// twoCtx = 1: the second task uses a second context (B) with its own up / down / before / after.
+func VerifC14Hooks(nt, shape, twoCtx int) {
 	vInstallStubs()
 	vAllowOther = false
 	hasCond, hasBefore, hasAfter := shape&1 != 0, shape&2 != 0, shape&4 != 0
 	ctx := NewExecutionContext(nil, "", variables.NewVariables(), []string{"up0", "up1"}, []string{"down0"}, []string{"cb0"}, []string{"ca0"})
 	other := NewExecutionContext(nil, "", variables.NewVariables(), []string{"up-other"}, []string{"down-other"}, nil, nil)
-	r, err := NewTaskRunner(WithContexts(map[string]*ExecutionContext{"ctx": ctx, "unused": other}))
+	ctxB := NewExecutionContext(nil, "", variables.NewVariables(), []string{"upB"}, []string{"downB"}, []string{"cbB"}, []string{"caB"})
+	r, err := NewTaskRunner(WithContexts(map[string]*ExecutionContext{"ctx": ctx, "unused": other, "ctxB": ctxB}))
 	rt.Assert(err == nil, "C14.runner-created")
 	errs := make([]error, nt)
 	tasks := make([]*task.Task, nt)
@@ -100,6 +117,9 @@ func VerifC14Hooks(nt, shape int) {
 		t := task.FromCommands("c0")
 		t.Name = "t" + vDigits[k]
 		t.Context = "ctx"
+		if twoCtx == 1 && k == 1 {
+			t.Context = "ctxB"
+		}
 		if hasCond {
 			t.Condition = "cond"
 		}
@@ -118,7 +138,7 @@ func VerifC14Hooks(nt, shape int) {
 	// ---- oracle ----
 	w := &c14Walk{ok: true}
 	for k := 0; k < nt; k++ {
-		mustFail, skipped := w.run(hasCond, hasBefore, hasAfter, tasks[k].AllowFailure)
+		mustFail, skipped := w.run(hasCond, hasBefore, hasAfter, tasks[k].AllowFailure, twoCtx == 1 && k == 1)
 		if !w.ok {
 			return
 		}
@@ -127,9 +147,23 @@ func VerifC14Hooks(nt, shape int) {
 	}
 	rt.Assert(w.i == nRun, "C14.no-other-command-runs")
 	// Finish: down exactly once for the context that was used, none for the unused one
-	rt.Assert(len(vCalls) == nRun+1, "C14.down-runs-exactly-once-for-used-contexts-only")
-	if len(vCalls) == nRun+1 {
-		rt.Assert(vCalls[nRun].Cmd == "down0", "C14.down-runs-exactly-once-for-used-contexts-only")
+	wantDowns := 1
+	if twoCtx == 1 && nt == 2 {
+		wantDowns = 2
+	}
+	rt.Assert(len(vCalls) == nRun+wantDowns, "C14.down-runs-exactly-once-for-used-contexts-only")
+	if len(vCalls) == nRun+wantDowns {
+		n0, nB := 0, 0
+		for _, c := range vCalls[nRun:] {
+			if c.Cmd == "down0" {
+				n0++
+			}
+			if c.Cmd == "downB" {
+				nB++
+			}
+		}
+		rt.Assert(n0 == 1, "C14.down-runs-exactly-once-for-used-contexts-only")
+		rt.Assert(nB == wantDowns-1, "C14.down-runs-exactly-once-for-used-contexts-only")
 	}
 	rt.Cover("C14.hooks-checked")
 	if w.upFail {
